@@ -4,6 +4,7 @@ go 1.24.4
 
 require (
 	github.com/NVIDIA/KAI-scheduler v0.0.0
+	github.com/anishathalye/porcupine v1.3.0
 	github.com/NVIDIA/gpu-operator v1.8.3-0.20250724212111-616690d88d86
 	github.com/go-logr/logr v1.4.3
 	github.com/prometheus-operator/prometheus-operator/pkg/apis/monitoring v0.88.0
@@ -11,6 +12,7 @@ require (
 	k8s.io/apiextensions-apiserver v0.34.3
 	k8s.io/apimachinery v0.34.3
 	k8s.io/client-go v0.34.3
+	k8s.io/klog/v2 v2.130.1
 	k8s.io/utils v0.0.0-20251002143259-bc988d571ff4
 	sigs.k8s.io/controller-runtime v0.22.3
 )
@@ -121,7 +123,6 @@ require (
 	k8s.io/dynamic-resource-allocation v0.34.1 // indirect
 	k8s.io/endpointslice v0.34.2 // indirect
 	k8s.io/externaljwt v0.34.1 // indirect
-	k8s.io/klog/v2 v2.130.1 // indirect
 	k8s.io/kube-aggregator v0.34.1 // indirect
 	k8s.io/kube-controller-manager v0.34.1 // indirect
 	k8s.io/kube-openapi v0.0.0-20250710124328-f3f2b991d03b // indirect
